@@ -47,6 +47,462 @@ def find_func(tree, cls, name):
     raise Unrecognised(f"function {name} not found")
 
 
+# ---------------------------------------------------------------- normalisation of the source before translation
+# Behaviour-preserving rewrites of a method body that undo what refactorings commonly do -- a private helper method (or
+# property, or module-level constant) extracted from the method, a local alias for a field or for an expression used once,
+# a set built by a loop instead of a comprehension -- so that the translated definition, and the equation proved about it,
+# do not depend on such choices.  Each rewrite is applied only where it is safe by a syntactic criterion; where it is not,
+# the source is left as it is (and the translator recognises it or fails closed as before).
+import copy
+
+_PURE_CALLS = {"Changes", "Map", "State", "SimTime", "ComponentID", "PortID", "ComponentPort", "set", "list", "dict", "min", "max",
+               "cast", "int", "len", "DeviceUpdate", "frozenset", "tuple"}
+_PURE_METHODS = {"items", "values", "keys", "get", "Outputs", "union", "intersection", "copy"}
+_MUTATORS = {"append", "add", "update", "clear", "pop", "remove", "extend", "discard", "setdefault", "insert"}
+
+
+def _path(e):
+    """'x', 'self.f', 'x.a.b' for a pure access path, else None"""
+    parts = []
+    while isinstance(e, ast.Attribute):
+        parts.insert(0, e.attr)
+        e = e.value
+    if isinstance(e, ast.Name):
+        return ".".join([e.id] + parts)
+    return None
+
+
+def _root(path):
+    bits = path.split(".")
+    return "self." + bits[1] if bits[0] == "self" and len(bits) > 1 else bits[0]
+
+
+def _is_pure(e):
+    """no side effect and no dependence on anything but the values of the names / fields it reads"""
+    for n in ast.walk(e):
+        if isinstance(n, (ast.Await, ast.Yield, ast.YieldFrom, ast.NamedExpr, ast.Lambda)):
+            return False
+        if isinstance(n, ast.Call):
+            f = n.func
+            if isinstance(f, ast.Name) and f.id in _PURE_CALLS:
+                continue
+            if isinstance(f, ast.Attribute) and f.attr in _PURE_METHODS:
+                continue
+            return False
+    return True
+
+
+def _reads(e):
+    """roots ('x' / 'self.f') of everything an expression or statement reads"""
+    out = set()
+    funcs = {id(n.func) for n in ast.walk(e) if isinstance(n, ast.Call) and isinstance(n.func, ast.Name)}
+    for n in ast.walk(e):
+        if isinstance(n, (ast.Name, ast.Attribute)) and isinstance(getattr(n, "ctx", None), ast.Load) and id(n) not in funcs:
+            p = _path(n)
+            if p:
+                out.add(_root(p))
+    return out
+
+
+def _writes(stmts):
+    """roots bound or mutated by a list of statements"""
+    out = set()
+    for s in stmts:
+        for n in ast.walk(s):
+            tg = []
+            if isinstance(n, ast.Assign):
+                tg = n.targets
+            elif isinstance(n, (ast.AnnAssign, ast.AugAssign)):
+                tg = [n.target]
+            elif isinstance(n, ast.Delete):
+                tg = n.targets
+            elif isinstance(n, ast.For):
+                tg = [n.target]
+            elif isinstance(n, ast.Call) and isinstance(n.func, ast.Attribute) and n.func.attr in _MUTATORS:
+                tg = [n.func.value]
+            elif isinstance(n, ast.comprehension):
+                tg = []
+            for t in tg:
+                for x in (t.elts if isinstance(t, ast.Tuple) else [t]):
+                    while isinstance(x, ast.Subscript):
+                        x = x.value
+                    p = _path(x)
+                    if p:
+                        out.add(_root(p))
+    return out
+
+
+def _rebinds(stmts):
+    """roots bound as a whole (x = ..., self.f = ...) -- not those merely mutated"""
+    out = set()
+    for s in stmts:
+        for n in ast.walk(s):
+            tg = []
+            if isinstance(n, ast.Assign):
+                tg = n.targets
+            elif isinstance(n, (ast.AnnAssign, ast.AugAssign)):
+                tg = [n.target]
+            elif isinstance(n, ast.For):
+                tg = [n.target]
+            for t in tg:
+                for x in (t.elts if isinstance(t, ast.Tuple) else [t]):
+                    p = _path(x)
+                    if p:
+                        out.add(_root(p))
+    return out
+
+
+class _Subst(ast.NodeTransformer):
+    """names -> expressions (Load) / names -> names (Store); beta-reduces calls of names bound to lambdas"""
+    def __init__(self, exprs, lambdas=None):
+        self.exprs, self.lambdas = exprs, lambdas or {}
+
+    def visit_Name(self, n):
+        if n.id in self.exprs:
+            e = self.exprs[n.id]
+            if isinstance(n.ctx, ast.Load):
+                return copy.deepcopy(e)
+            if isinstance(e, ast.Name):
+                return ast.Name(id=e.id, ctx=n.ctx)
+        return n
+
+    def visit_Call(self, n):
+        if isinstance(n.func, ast.Name) and n.func.id in self.lambdas and not n.keywords:
+            lam = self.lambdas[n.func.id]
+            ps = [a.arg for a in lam.args.args]
+            if len(ps) == len(n.args):
+                args = [self.visit(a) for a in n.args]
+                return _Subst(dict(zip(ps, args))).visit(copy.deepcopy(lam.body))
+        return self.generic_visit(n)
+
+    def visit_Attribute(self, n):
+        p = _path(n)
+        if p and p in self.exprs and isinstance(n.ctx, ast.Load):
+            return copy.deepcopy(self.exprs[p])
+        return self.generic_visit(n)
+
+
+def _strip(body):
+    """without the docstring and the logging calls"""
+    out = []
+    for i, s in enumerate(body):
+        if isinstance(s, ast.Expr) and isinstance(s.value, ast.Constant) and isinstance(s.value.value, str):
+            continue
+        if isinstance(s, ast.Expr) and isinstance(s.value, ast.Call) and isinstance(s.value.func, ast.Attribute) \
+                and isinstance(s.value.func.value, ast.Name) and s.value.func.value.id == "LOGGER":
+            continue
+        out.append(s)
+    return out
+
+
+def _helpers(tree, cls):
+    """private plain methods / properties / static methods of the class and of its bases in the same module"""
+    classes = {n.name: n for n in tree.body if isinstance(n, ast.ClassDef)}
+    out = {}
+
+    def collect(cname, seen):
+        if cname not in classes or cname in seen:
+            return
+        seen.add(cname)
+        for b in classes[cname].bases:
+            if isinstance(b, ast.Name):
+                collect(b.id, seen)
+        for n in classes[cname].body:
+            if isinstance(n, ast.FunctionDef) and n.name.startswith("_") and not n.name.startswith("__"):
+                decos = [ast.unparse(d) for d in n.decorator_list]
+                kind = {(): "method", ("property",): "property", ("staticmethod",): "static"}.get(tuple(decos))
+                body = _strip(n.body)
+                rets = [x for s0 in body for x in ast.walk(s0) if isinstance(x, ast.Return)]
+                bad = any(isinstance(x, (ast.Await, ast.Yield, ast.YieldFrom, ast.FunctionDef, ast.AsyncFunctionDef, ast.Global, ast.Nonlocal,
+                                         ast.Try, ast.With, ast.While, ast.Raise, ast.ClassDef)) for s0 in body for x in ast.walk(s0))
+                if kind and not bad and len(rets) <= 1 and (not rets or (body and body[-1] is rets[0])) \
+                        and not n.args.vararg and not n.args.kwarg and not n.args.kwonlyargs:
+                    out[n.name] = (kind, n, body)
+    if cls:
+        collect(cls, set())
+    return out
+
+
+def _constants(tree):
+    """module-level NAME = <pure expression of literals>"""
+    out = {}
+    for n in tree.body:
+        if isinstance(n, ast.Assign) and len(n.targets) == 1 and isinstance(n.targets[0], ast.Name) and _is_pure(n.value) \
+                and not _reads(n.value):
+            out[n.targets[0].id] = n.value
+        elif isinstance(n, ast.AnnAssign) and isinstance(n.target, ast.Name) and n.value is not None and _is_pure(n.value) and not _reads(n.value):
+            out[n.target.id] = n.value
+    return out
+
+
+def _helper_writes(name, helpers, seen=None):
+    seen = seen or set()
+    if name in seen or name not in helpers:
+        return set()
+    seen.add(name)
+    _, node, body = helpers[name]
+    out = {w for w in _writes(body) if w.startswith("self.")}
+    for n in ast.walk(node):
+        if isinstance(n, ast.Call) and isinstance(n.func, ast.Attribute) and isinstance(n.func.value, ast.Name) and n.func.value.id == "self":
+            out |= _helper_writes(n.func.attr, helpers, seen)
+    return out
+
+
+def _find_call(e, helpers, guarded=False):
+    """the first call of a helper (or read of a helper property) in evaluation order that is evaluated unconditionally
+    -- innermost first; returns the node or None"""
+    if isinstance(e, (ast.Lambda, ast.ListComp, ast.SetComp, ast.DictComp, ast.GeneratorExp)):
+        return None
+    if isinstance(e, ast.BoolOp):
+        return _find_call(e.values[0], helpers)
+    if isinstance(e, ast.IfExp):
+        return _find_call(e.test, helpers)
+    for c in ast.iter_child_nodes(e):
+        if isinstance(c, ast.expr):
+            r = _find_call(c, helpers)
+            if r is not None:
+                return r
+    if isinstance(e, ast.Call) and isinstance(e.func, ast.Attribute) and isinstance(e.func.value, ast.Name) \
+            and e.func.value.id in ("self", "cls") and e.func.attr in helpers and helpers[e.func.attr][0] in ("method", "static"):
+        return e
+    if isinstance(e, ast.Attribute) and isinstance(e.ctx, ast.Load) and isinstance(e.value, ast.Name) and e.value.id == "self" \
+            and e.attr in helpers and helpers[e.attr][0] == "property":
+        return e
+    return None
+
+
+class _Replace(ast.NodeTransformer):
+    def __init__(self, old, new):
+        self.old, self.new = old, new
+
+    def visit(self, n):
+        if n is self.old:
+            return self.new
+        return super().visit(n)
+
+
+def _inline_one(stmt, helpers, counter):
+    """hoists the first helper call of a simple statement: returns the statements that replace it, or None"""
+    if isinstance(stmt, (ast.Assign, ast.AnnAssign, ast.AugAssign, ast.Expr, ast.Return)):
+        holder = stmt
+        value = stmt.value
+    elif isinstance(stmt, ast.If):
+        holder, value = stmt, stmt.test
+    elif isinstance(stmt, ast.For):
+        holder, value = stmt, stmt.iter
+    else:
+        return None
+    if value is None:
+        return None
+    call = _find_call(value, helpers)
+    if call is None:
+        return None
+    name = call.func.attr if isinstance(call, ast.Call) else call.attr
+    kind, node, body = helpers[name]
+    counter[0] += 1
+    tag = f"{name.lstrip('_')}_{counter[0]}"
+    params = [a.arg for a in node.args.args]
+    if kind in ("method", "property"):
+        params = params[1:]
+    args = list(call.args) if isinstance(call, ast.Call) else []
+    kws = {k.arg: k.value for k in call.keywords} if isinstance(call, ast.Call) else {}
+    if None in kws or len(args) > len(params):
+        return None
+    defaults = dict(zip(params[len(params) - len(node.args.defaults):], node.args.defaults))
+    bound = {}
+    for i, p0 in enumerate(params):
+        if i < len(args):
+            bound[p0] = args[i]
+        elif p0 in kws:
+            bound[p0] = kws[p0]
+        elif p0 in defaults:
+            bound[p0] = defaults[p0]
+        else:
+            return None
+    hw = _helper_writes(name, helpers)
+    local = {x for x in _writes(body) if not x.startswith("self.")} | set(params)
+    exprs, lambdas, pre = {}, {}, []
+    assigned_in_helper = _writes(body)
+    for p0, a in bound.items():
+        if isinstance(a, ast.Lambda):
+            if p0 in assigned_in_helper:
+                return None
+            lambdas[p0] = a
+            continue
+        pa = _path(a)
+        if (pa is not None or isinstance(a, ast.Constant)) and p0 not in assigned_in_helper and (pa is None or _root(pa) not in hw):
+            exprs[p0] = a                      # a name, a field, an access path, a literal: substituted
+        else:
+            fresh = f"{tag}_{p0}"
+            pre.append(ast.Assign(targets=[ast.Name(id=fresh, ctx=ast.Store())], value=a))
+            exprs[p0] = ast.Name(id=fresh, ctx=ast.Load())
+    for x in local - set(params):
+        exprs[x] = ast.Name(id=f"{tag}_{x}", ctx=ast.Load())
+    sub = _Subst(exprs, lambdas)
+    new_body = [sub.visit(copy.deepcopy(s0)) for s0 in body]
+    ret = None
+    if new_body and isinstance(new_body[-1], ast.Return):
+        ret = new_body[-1].value
+        new_body = new_body[:-1]
+    if isinstance(stmt, ast.Expr) and stmt.value is call:
+        return pre + new_body                                   # a call for its effect
+    if ret is None:
+        ret = ast.Constant(value=None)
+    if value is call and isinstance(stmt, ast.Assign) and len(stmt.targets) == 1 and isinstance(stmt.targets[0], ast.Name) \
+            and isinstance(ret, ast.Name) and ret.id.startswith(tag + "_") and stmt.targets[0].id not in _reads(ast.Module(body=pre + new_body, type_ignores=[])) \
+            and stmt.targets[0].id not in _writes(pre + new_body):
+        # x = self._h(...) where _h returns one of its locals: that local IS x
+        ren = _Subst({ret.id: ast.Name(id=stmt.targets[0].id, ctx=ast.Load())})
+        return [ren.visit(s0) for s0 in pre + new_body]
+    if value is call and isinstance(stmt, (ast.Assign, ast.AnnAssign, ast.Return)):
+        new_stmt = copy.copy(stmt)
+        new_stmt.value = ret                                    # x = self._h(...)  /  return self._h(...)
+        return pre + new_body + [new_stmt]
+    tmp = f"{tag}_result"
+    new_stmt = _Replace(call, ast.Name(id=tmp, ctx=ast.Load())).visit(stmt)
+    return pre + new_body + [ast.Assign(targets=[ast.Name(id=tmp, ctx=ast.Store())], value=ret), new_stmt]
+
+
+def _order_safe(stmt, call, hw):
+    """nothing the statement evaluates besides the call reads what the helper writes"""
+    if isinstance(stmt, ast.If):
+        value = stmt.test
+    elif isinstance(stmt, ast.For):
+        value = stmt.iter
+    else:
+        value = stmt.value
+    reads = set()
+    stack = [value]
+    while stack:
+        n = stack.pop()
+        if n is call:
+            for a in (list(n.args) + [k.value for k in n.keywords]) if isinstance(n, ast.Call) else []:
+                reads |= _reads(a)
+            continue
+        if isinstance(n, (ast.Name, ast.Attribute)) and isinstance(getattr(n, "ctx", None), ast.Load):
+            p0 = _path(n)
+            if p0:
+                reads.add(_root(p0))
+                continue
+        stack.extend(ast.iter_child_nodes(n))
+    return not (reads & hw)
+
+
+def _inline_helpers(body, helpers, counter, depth=0):
+    if depth > 12:
+        raise Unrecognised("helper methods nested too deeply")
+    out = []
+    for s in body:
+        if isinstance(s, (ast.If, ast.For)):
+            s = copy.copy(s)
+            s.body = _inline_helpers(s.body, helpers, counter, depth)
+            if getattr(s, "orelse", None):
+                s.orelse = _inline_helpers(s.orelse, helpers, counter, depth)
+        value = s.test if isinstance(s, ast.If) else s.iter if isinstance(s, ast.For) else getattr(s, "value", None)
+        call = _find_call(value, helpers) if value is not None and isinstance(s, (ast.Assign, ast.AnnAssign, ast.AugAssign, ast.Expr, ast.Return, ast.If, ast.For)) else None
+        if call is not None:
+            name = call.func.attr if isinstance(call, ast.Call) else call.attr
+            if _order_safe(s, call, _helper_writes(name, helpers)):
+                rep = _inline_one(s, helpers, counter)
+                if rep is not None:
+                    out.extend(_inline_helpers(rep, helpers, counter, depth + 1))
+                    continue
+        out.append(s)
+    return out
+
+
+def _count_loads(stmts, name):
+    return sum(1 for s in stmts for n in ast.walk(s) if isinstance(n, (ast.Name, ast.Attribute)) and isinstance(getattr(n, "ctx", None), ast.Load)
+               and _path(n) == name)
+
+
+def _inline_locals(body):
+    """x = <pure expression>, x bound once: later uses are replaced by the expression when x stands for a field / an access
+    path (an alias) or is used once, provided nothing the expression reads is written in between"""
+    changed = True
+    while changed:
+        changed = False
+        for i, s in enumerate(body):
+            if isinstance(s, ast.AnnAssign) and s.value is not None and isinstance(s.target, ast.Name):
+                s = ast.Assign(targets=[s.target], value=s.value)
+            if not (isinstance(s, ast.Assign) and len(s.targets) == 1 and isinstance(s.targets[0], ast.Name)):
+                continue
+            x = s.targets[0].id
+            if not _is_pure(s.value) or x in _reads(s.value):
+                continue
+            if x in _writes(body[:i]) or x in _writes(body[i + 1:]):
+                # bound more than once, or mutated through this name: only a name for a FIELD that is never rebound can be replaced
+                pa = _path(s.value)
+                if not (pa and x not in _rebinds(body[:i]) and x not in _rebinds(body[i + 1:]) and _root(pa) not in _rebinds(body)):
+                    continue
+            rest = body[i + 1:]
+            uses = _count_loads(rest, x)
+            alias = _path(s.value) is not None or isinstance(s.value, ast.Constant)
+            if uses == 0 or not (alias or uses == 1):
+                continue
+            # the last statement that uses x; nothing the expression reads may be written before it (by an earlier statement)
+            last = max(j for j, r in enumerate(rest) if _count_loads([r], x))
+            rd = _reads(s.value)
+            if rd & _writes(rest[:last]):
+                continue
+            # ... nor inside a loop / conditional that both writes it and uses x
+            if any(isinstance(r, (ast.For, ast.If, ast.While)) and _count_loads([r], x) and (rd & _writes([r])) for r in rest[:last + 1]):
+                continue
+            sub = _Subst({x: s.value})
+            body = body[:i] + [sub.visit(r) for r in rest]
+            changed = True
+            break
+    return body
+
+
+def _loops_to_comprehensions(body):
+    """x = set(); for <pat> in <it>: [if c:] x.add(e)   ->   x = {e for <pat> in <it> [if c]}"""
+    out = []
+    i = 0
+    while i < len(body):
+        s = body[i]
+        tgt = s.targets[0] if isinstance(s, ast.Assign) and len(s.targets) == 1 else s.target if isinstance(s, ast.AnnAssign) and s.value is not None else None
+        if isinstance(tgt, ast.Name) and isinstance(s.value, ast.Call) and isinstance(s.value.func, ast.Name) and s.value.func.id == "set" \
+                and not s.value.args and i + 1 < len(body) and isinstance(body[i + 1], ast.For) and not body[i + 1].orelse:
+            f = body[i + 1]
+            inner, conds = f.body, []
+            while len(inner) == 1 and isinstance(inner[0], ast.If) and not inner[0].orelse:
+                conds.append(inner[0].test)
+                inner = inner[0].body
+            if len(inner) == 1 and isinstance(inner[0], ast.Expr) and isinstance(inner[0].value, ast.Call) \
+                    and isinstance(inner[0].value.func, ast.Attribute) and inner[0].value.func.attr == "add" \
+                    and isinstance(inner[0].value.func.value, ast.Name) and inner[0].value.func.value.id == tgt.id \
+                    and len(inner[0].value.args) == 1 and tgt.id not in _reads(f.iter) \
+                    and all(tgt.id not in _reads(c) for c in conds) and tgt.id not in _reads(inner[0].value.args[0]):
+                comp = ast.SetComp(elt=inner[0].value.args[0],
+                                   generators=[ast.comprehension(target=f.target, iter=f.iter, ifs=conds, is_async=0)])
+                out.append(ast.Assign(targets=[ast.Name(id=tgt.id, ctx=ast.Store())], value=comp))
+                i += 2
+                continue
+        out.append(s)
+        i += 1
+    return out
+
+
+def normalise(tree, cls, fn):
+    helpers = _helpers(tree, cls)
+    consts = _constants(tree)
+    body = _strip(fn.body)
+    if consts:
+        local = _writes(body) | {a.arg for a in fn.args.args}
+        sub = _Subst({k: v for k, v in consts.items() if k not in local and k.startswith("_")})
+        body = [sub.visit(copy.deepcopy(s)) for s in body]
+    if helpers:
+        body = _inline_helpers([copy.deepcopy(s) for s in body], helpers, [0])
+        if consts:
+            body = [sub.visit(s) for s in body]
+    body = _loops_to_comprehensions(body)
+    body = _inline_locals(body)
+    new = copy.copy(fn)
+    new.body = [ast.fix_missing_locations(s) for s in body] or [ast.Pass()]
+    return new
+
+
 class Tr:
     def __init__(self, env):
         self.env = dict(env)          # python name ("self.f" for fields) -> (coq name, kind)
@@ -539,7 +995,7 @@ class Tr:
 
 def translate(spec):
     tree = ast.parse((SRC / spec["file"]).read_text())
-    fn = find_func(tree, spec.get("cls"), spec["func"])
+    fn = normalise(tree, spec.get("cls"), find_func(tree, spec.get("cls"), spec["func"]))
     env = {}
     args = []
     for f, k in spec.get("fields", {}).items():
@@ -568,12 +1024,25 @@ def translate(spec):
         return spec["extract"](tr, fn, args, spec)
     if "given" in spec:
         # the first assignment to this local (real-time arithmetic, not translated) is taken as given: a parameter
+        # the leading assignments of locals from real-time arithmetic (time_ns(), fields that are not modelled here) are not
+        # translated: the one local the rest of the body uses is taken as given, a parameter
         name, kind = spec["given"]
-        idx = [i for i, st in enumerate(body) if isinstance(st, ast.Assign) and len(st.targets) == 1 and tr.name_of(st.targets[0]) == name]
-        if len(idx) != 1 or any(isinstance(st, (ast.Assign, ast.AugAssign, ast.For, ast.If, ast.While, ast.Return)) for st in body[:idx[0]]):
-            raise Unrecognised(f"{name} is not assigned exactly once, first")
-        body = body[idx[0] + 1:]
-        tr.env[name] = (name, kind)
+        known = {"self." + f0 for f0 in spec.get("fields", {})}
+        opaque, k0 = set(), 0
+        for st in body:
+            if isinstance(st, ast.Assign) and len(st.targets) == 1 and isinstance(st.targets[0], ast.Name) and (
+                    any(isinstance(x, ast.Call) and isinstance(x.func, ast.Name) and x.func.id == "time_ns" for x in ast.walk(st.value))
+                    or (_reads(st.value) & opaque) or any(r.startswith("self.") and r not in known for r in _reads(st.value))) \
+                    and not (_reads(st.value) & known):
+                opaque.add(st.targets[0].id)
+                k0 += 1
+            else:
+                break
+        body = body[k0:]
+        used = sorted(x for x in opaque if _count_loads(body, x))
+        if len(used) != 1:
+            raise Unrecognised(f"the body uses {used or 'none'} of the locals computed from the clock: exactly one expected")
+        tr.env[used[0]] = (name, kind)
         args.append((name, kind))
     if "until_await" in spec:
         # the part of an async method before (or after) its one await: the state it leaves, and the named locals
